@@ -565,6 +565,9 @@ func (l *commitLog) close() error {
 // Close closes each log segment file and stops the background goroutine
 // checkpointing the high watermark to disk.
 func (l *commitLog) Close() error {
+	// Wait for a running clean: it removes and replaces segment files.
+	l.cleanMu.Lock()
+	defer l.cleanMu.Unlock()
 	l.mu.Lock()
 	defer l.mu.Unlock()
 
@@ -574,6 +577,8 @@ func (l *commitLog) Close() error {
 // Delete closes the log and removes all data associated with it from the
 // filesystem.
 func (l *commitLog) Delete() error {
+	l.cleanMu.Lock()
+	defer l.cleanMu.Unlock()
 	l.mu.Lock()
 	defer l.mu.Unlock()
 
@@ -761,6 +766,11 @@ func (l *commitLog) split(oldActiveSegment *segment) error {
 	// list ended with a segment that is not the active one.
 	l.mu.Lock()
 	defer l.mu.Unlock()
+	if l.IsClosed() {
+		// The cleaner's tick can still be on its way when the log is closed.
+		// The directory may belong to a new instance of the log by now.
+		return ErrCommitLogClosed
+	}
 	if l.activeSegment() != oldActiveSegment {
 		return ErrSegmentExists
 	}
@@ -822,6 +832,10 @@ func (l *commitLog) Clean() error {
 	// would work on the files of the same segments, so they exclude each other.
 	l.cleanMu.Lock()
 	defer l.cleanMu.Unlock()
+	if l.IsClosed() {
+		// See split: nothing of a closed log may touch the directory.
+		return nil
+	}
 	l.mu.RLock()
 	oldSegments := l.segments
 	l.mu.RUnlock()
